@@ -57,6 +57,10 @@ def replay(name, inp):
     if inp.get('twice'):
         out = native.call('twice', {}, timeout=60)
         return {'reproduced': bool(out.get('failures')), 'observed': out.get('failures', [])[:2]}
+    if inp.get('master_error') or inp.get('nested'):
+        mode = 'master_error' if inp.get('master_error') else 'nested'
+        out = native.call(mode, {}, timeout=60)
+        return {'reproduced': bool(out.get('failures')), 'observed': out.get('failures', [])[:2]}
     if 'cycle_of' in inp:
         out = native.call('cyclic', {}, timeout=60)
         return {'reproduced': bool(out.get('failures')), 'observed': out.get('failures', [])[:2]}
